@@ -28,6 +28,7 @@ TParse == /\ Rec[l].e = "parse"
 TMaddr == /\ Rec[l].e = "maddr"
           /\ Rec[l].c \in MaddrClasses
           /\ PropMaddr(Rec[l].c, Rec[l].got, Rec[l].append_rt)
+          /\ PropRecordNew(Rec[l].c, Rec[l].new_got, Rec[l].new_ok)
 
 TNext == /\ l <= Len(Rec)
          /\ l' = l + 1
